@@ -14,8 +14,11 @@ def run(ctx):
     # (per-position op sets of process 1, kp operations of process 2 drawn from pops); the quick tier covers every 2-operation
     # history of process 1 by four harnesses that fix the kind of each position (solved in parallel)
     q = [((1, 1), 1, 0x03), ((1, 2), 1, 0x03), ((2, 1), 1, 0x03), ((2, 2), 1, 0x03)]
-    t = [((3, 3), 1, 0x03), ((3, 3), 2, 0x03), ((3, 3, 3), 1, 0x03), ((1, 7, 3), 1, 0x03), ((2, 7, 3), 1, 0x03), ((3, 3, 3), 2, 0x03)]
+    # thorough: the quick four with pointer/overflow instrumentation, any 2 and any 3 stores before the crash. (Two further operations after
+    # reopening, and gets inside process 1, were tried: their reachability twins alone exceed the 600 s cap of the runner - not listed.)
+    t = q + [((3, 3), 1, 0x03), ((3, 3, 3), 1, 0x03)]
     for sets, kp, pops in (q if ctx.tier == 'quick' else t):
+        if 'KF_FP_SLOT0' in defs and sets[0] == 1: continue     # that known finding excludes exactly the histories starting with a message put
         k = len(sets); nrec = k + kp + 1; ops = 0
         for s_ in sets: ops |= s_
         ctx.add(Harness('C27_crash_%s_kp%d_pops%02x' % ('_'.join('%x' % s_ for s_ in sets), kp, pops), VERIF + '/harness/C27_crash.c',
